@@ -5,9 +5,10 @@
      3  dialSync                (SpecSync.v)
      4  DefaultDialRanker       (SpecRanker.v)
      5  whole Swarm.DialPeer    (SpecDialPeer.v monitor, SpecComposite.v replay)
+     6  Swarm.addrsForDial      (SpecAddrs.v)
    No proofs here. *)
 From Coq Require Import List ZArith Bool.
-From Verif Require Import lib.Wire c05.SpecLimiter c05.SpecWorker c05.SpecRanker c05.SpecSync c05.SpecDialPeer c05.SpecComposite.
+From Verif Require Import lib.Wire c05.SpecLimiter c05.SpecWorker c05.SpecRanker c05.SpecSync c05.SpecDialPeer c05.SpecComposite c05.SpecAddrs.
 Import ListNotations.
 Local Open Scope Z_scope.
 
@@ -18,6 +19,7 @@ Definition conform_case (l : list Z) : list Z :=
   | 3 :: r => conform_s_case r
   | 4 :: r => conform_r_case r
   | 5 :: r => conform_d_case r
+  | 6 :: r => conform_a_case r
   | _ => [ERR_MALFORMED; 0]
   end.
 
@@ -28,5 +30,6 @@ Definition monitor_case (l : list Z) : list Z :=
   | 3 :: r => monitor_s_case r
   | 4 :: r => monitor_r_case r
   | 5 :: r => monitor_d_case r
+  | 6 :: r => monitor_a_case r
   | _ => [ERR_MALFORMED; 0]
   end.
